@@ -22,7 +22,9 @@ import (
 //	confirm R X Q               OPEN_CONFIRM with the state ID returned by request X, seqid Q
 //	down R X Q A                OPEN_DOWNGRADE
 //	close R X Q                 CLOSE
-//	lock R X Q LQ off len T     LOCK, new lock-owner "lo<R>", open seqid Q, lock seqid LQ
+//	lock R X Q LQ off len T [lo=K]
+//	                            LOCK with open_to_lock_owner4: open seqid Q, lock seqid LQ, lock-owner "lo<R>" (new)
+//	                            or, with lo=K, the lock-owner of the earlier LOCK request K (nested lock-owner transaction)
 //	lockx R Y Q off len T       LOCK, existing lock-owner: lock state ID of request Y, lock seqid Q
 //	locku R Y Q off len         LOCKU
 //	dup R                       retransmit request R (identical arguments)
@@ -86,6 +88,7 @@ type call40 struct {
 	accepted  bool // the transaction was started for this call (or it waits for / is the running one)
 	consumed  bool // ... and advanced the owner's seqid
 	expectBad bool
+	inOrder   bool // client view: successor of the confirmed owner's last accepted seqid, nothing in flight, no nested lock-owner involved
 	opStatus  uint32
 }
 
@@ -107,7 +110,7 @@ type run40 struct {
 	consumed  map[[2]int]*req40 // (owner, seq) -> request that advanced the owner under that seqid
 	lockCons  map[[2]int]*req40 // (lock other, seq)
 	dirBusy   map[int]int     // directory -> owner of the OPEN parked inside its lock
-	lastLock  map[int]*req40  // lock state ID other -> last lock-owner request that advanced
+	lastLock  map[int]*req40  // lock-owner -> last request that advanced its lock seqid
 	inflight  map[int]*req40  // owner -> request whose transaction is running (OPEN parked)
 	dirty     map[int]bool    // owner -> a request since the last advance failed without advancing (it may have dropped the cache)
 	label     int
@@ -279,6 +282,12 @@ func (r *run40) build(f []string) (*req40, bool) {
 		q.parkKind = "open"
 		body = f[:len(f)-1]
 	}
+	reuse := -1
+	if last := body[len(body)-1]; strings.HasPrefix(last, "lo=") {
+		reuse = atoi(last[3:])
+		body = body[:len(body)-1]
+		r.out.refs[reuse] = true
+	}
 	n := len(body)
 	lt := func(i int) nfsv4.NfsLockType4 {
 		if arg(i)%2 == 1 {
@@ -336,13 +345,18 @@ func (r *run40) build(f []string) (*req40, bool) {
 			}
 			q.kind, q.lockSeq = kLock, uint32(arg(4))
 			q.lockOwn = q.id
-			q.args = []nfsv4.NfsArgop4{fh, nfsx.LockNew(lt(7), uint64(arg(5)), uint64(1+arg(6)), q.seq, sid, q.lockSeq, r.clients[q.client], fmt.Sprintf("lo%d", q.id))}
+			if k, ok := r.reqs[reuse]; ok && k.kind == kLock && !k.lockTx && k.owner == q.owner && k.client == q.client {
+				// the lock-owner of an earlier LOCK of the same open-owner (sharing one between
+				// open-owners of a file makes CLOSE panic, see notes/findings/C18-…)
+				q.lockOwn = k.lockOwn
+			}
+			q.args = []nfsv4.NfsArgop4{fh, nfsx.LockNew(lt(7), uint64(arg(5)), uint64(1+arg(6)), q.seq, sid, q.lockSeq, r.clients[q.client], fmt.Sprintf("lo%d", q.lockOwn))}
 		}
 	case "lockx", "locku":
 		r.out.refs[arg(2)] = true
 		sid, y := r.sidOf(arg(2))
 		if y != nil {
-			q.file, q.client = y.file, y.client
+			q.file, q.client, q.lockOwn = y.file, y.client, y.lockOwn
 		}
 		q.lockTx, q.argSid, q.seq = true, sid, uint32(arg(3))
 		fh := nfsx.PutFH(r.w.FileHandles[q.file])
@@ -410,9 +424,11 @@ func (r *run40) start(q *req40) {
 		c.fresh = r.touched[q.owner] == q.mark
 		if r.confirmed[q.owner] && last != nil && c.retransOf == nil && q.falseOf == nil {
 			c.expectBad = q.seq != last.seq && q.seq != nextSeq40(last.seq)
+			c.inOrder = q.seq == nextSeq40(last.seq) && r.inflight[q.owner] == nil && r.consumed[k2] == nil &&
+				(q.kind != kLock || q.lockOwn == q.id)
 		}
 	} else if q.lockTx {
-		lk := r.other(q.argSid)
+		lk := q.lockOwn
 		if o := q.firstReturned(); o != nil && !advancingExcluded[uint32(o.res.Status)] {
 			// the lock-owner's seqid was advanced by the original: no effect from now on
 			c.retransOf = o
@@ -578,9 +594,24 @@ func (r *run40) onReturn(c *call40) {
 	if f := q.falseOf; f != nil && f.kind != q.kind && r.lastCons[q.owner] == f && st != 10026 && st != 10025 {
 		r.failMonitor("request %d (kind %d) reuses the seqid of request %d (kind %d) and was not refused (status %d)", q.id, q.kind, f.id, f.kind, st)
 	}
-	if f := q.falseOf; f != nil && f.kind == q.kind && (q.kind == kConfirm || q.kind == kDown || q.kind == kClose) &&
-		r.lastCons[q.owner] == f && f.consCall != nil && q.argSid != f.argSid && st == 0 && bytes.Equal(opBytes(c.res), opBytes(f.consCall.res)) {
-		r.failMonitor("request %d presents another state ID than request %d but reuses its seqid and was answered with that request's reply", q.id, f.id)
+	if f := q.falseOf; f != nil && f.kind == q.kind && (q.kind == kConfirm || q.kind == kDown || q.kind == kClose) && q.argSid != f.argSid &&
+		f.consCall != nil && opSt(f.consCall.res) == 0 {
+		// same seqid, same operation type, another state ID (another file, or another
+		// state-ID seqid) than the request whose OK reply (which names ITS state ID) is
+		// cached: content differs, so it must be refused, without effect. (A cached
+		// error reply carries no state ID; type and seqid are all RFC 7530 9.1.9 asks for.)
+		if st == 0 && bytes.Equal(opBytes(c.res), opBytes(f.consCall.res)) {
+			r.failMonitor("request %d presents another state ID than request %d but reuses its seqid and was answered with that request's reply", q.id, f.id)
+		} else if st != 10026 && st != 10025 {
+			r.failMonitor("request %d presents another state ID than request %d but reuses its seqid: expected NFS4ERR_BAD_SEQID, got status %d", q.id, f.id, st)
+		}
+		if effects != 0 {
+			r.failMonitor("request %d, a false retry of request %d, had side effects", q.id, f.id)
+		}
+		r.out.flags["false-retry-same-type-other-stateid"] = true
+	}
+	if c.inOrder && st == 10026 {
+		r.failMonitor("request %d carries the successor (%d) of its confirmed open-owner's last accepted seqid and was refused with NFS4ERR_BAD_SEQID: a request that was itself refused must have consumed the seqid (rejected requests must not have side effects)", q.id, q.seq)
 	}
 	if q.falseOf != nil && (st == 10026) {
 		r.out.flags["false-retry"] = true
@@ -595,9 +626,12 @@ func (r *run40) onReturn(c *call40) {
 	}
 	if c.retransOf == nil && q.falseOf == nil && !advancingExcluded[st] {
 		if q.lockTx {
-			r.lastLock[r.other(q.argSid)] = q
+			r.lastLock[q.lockOwn] = q
 		} else {
 			r.advance(c, st)
+			if q.kind == kLock {
+				r.lastLock[q.lockOwn] = q // the nested lock-owner transaction (probably) advanced its seqid too
+			}
 		}
 	}
 	if q.lockTx {
@@ -677,16 +711,21 @@ func (r *run40) compareReturn(c *call40) {
 		if q.kind == kLock {
 			lockOwn, lockSeq = q.lockOwn, q.lockSeq
 		}
-		line := fmt.Sprintf("finish %s %s %d %d", c.mOwner, respLine(q.kind, c.res, r, c.id), lockOwn, lockSeq)
+		reached := 0
+		if q.kind == kLock && st != 10025 && st != 10024 && st != 10020 {
+			reached = 1 // txLockInitial got past the open state ID to the lock-owner
+		}
+		line := fmt.Sprintf("finish %s %s %d %d %d", c.mOwner, respLine(q.kind, c.res, r, c.id), lockOwn, lockSeq, reached)
 		out := r.ask(line)
 		fs := strings.Fields(out)
-		if len(fs) < 3 || fs[0] != "done" || atoi(fs[1]) != c.id {
+		if len(fs) < 4 || fs[0] != "done" || atoi(fs[1]) != c.id {
 			r.failMismatch(name40, out, "", "model refused %q", line)
 			return
 		}
+		r.checkReply(c, fs[2])
 		// woken calls retry
-		if len(fs) == 4 {
-			for _, w := range strings.Split(fs[3], ",") {
+		if len(fs) == 5 {
+			for _, w := range strings.Split(fs[4], ",") {
 				wc := r.calls[atoi(w)]
 				wq := wc.req
 				mOwner := wq.owner
